@@ -100,6 +100,7 @@ VViewVerdict(ev) ==
                        \cup path("rbegin", ev.p_rbegin) \cup path("xy_at", ev.p_xyat) \cup path("x_at", ev.p_xat) \cup path("y_at", ev.p_yat)
                        \cup path("it+=", ev.p_itadv) \cup path("loc+=", ev.p_locmove) \cup path("cache_location", ev.p_cache)
                        \cup path("axis++", ev.p_axis) \cup path("begin..end", ev.p_loop)
+                       \cup path("assigned-view", ev.p_assigned) \cup path("assigned-iterator", ev.p_assigned_it)
                   ELSE {})
             \cup (IF ev.size1d # d[1] * d[2] THEN {V("P_Size1D", "None", key, [ctx |-> ctx, got |-> ev.size1d])} ELSE {})
             \cup (IF ev.bad_assoc + ev.bad_back + ev.bad_dist + ev.bad_order + ev.bad_incdec > 0
